@@ -470,6 +470,10 @@ func (cr *checkRun) generateAndSolve() {
 		for _, k := range used {
 			uc := w.usedContracts[k]
 			rep.Used = append(rep.Used, k)
+			if uc.Kind == "func" && uc.Trusted {
+				// a goa function whose contract is assumed, not proved from its body
+				rep.Assumptions = append(rep.Assumptions, "assumed contract (trusted, body not verified): func "+shortPkg(uc.Pkg)+"."+uc.Name)
+			}
 			if uc.Kind == "func" && (!uc.Trusted || uc.Opts["verify"] == "callsites") && !seen[uc] {
 				seen[uc] = true
 				queue = append(queue, uc)
